@@ -30,6 +30,10 @@ def part_text(p, v):
         sp = " " if v.get("ws") else ""
         return ":%s(%s%s%s)" % (name, sp, p["arg"], sp)
     if k == "pel":
+        if n.endswith(")"):
+            name, arg = n[:-1].split("(")
+            sp = " " if v.get("ws") else ""
+            return "%s(%s%s%s)" % (name.upper() if up else name, sp, arg, sp)
         return n.upper() if up else n
     if k == "not":
         sp = " " if v.get("ws") else ""
@@ -83,6 +87,14 @@ def project(sel):
                 return {"k": "fpclass", "n": v[1:-1], "arg": arg}, j + 1
             return {"k": "pclass", "n": v[1:], "arg": ""}, j + 1
         if t == "pseudo-element":
+            if v.endswith("("):
+                j += 1
+                arg = ""
+                while items[j][0] != "function-end":
+                    if items[j][0] != "S":
+                        arg += items[j][1]
+                    j += 1
+                return {"k": "pel", "n": v.lower() + arg + ")", "arg": ""}, j + 1
             return {"k": "pel", "n": v, "arg": ""}, j + 1
         return {"k": "?" + t, "n": str(v), "arg": ""}, j + 1
 
